@@ -101,9 +101,10 @@ def check_tree(data: dict, lab: Labels) -> None:
 
     # direct children
     exp_children = [b.of(c) for c, _, _ in root_e.children()]
-    got_children = list(root.children)
-    require(len(got_children) == len(exp_children) and all(x is y for x, y in zip(got_children, exp_children)),
-            "children", f"expected {len(exp_children)} got {len(got_children)}")
+    if root_e.cls != "Kids":  # (a class that declares a field called `children` has that field there instead)
+        got_children = list(root.children)
+        require(len(got_children) == len(exp_children) and all(x is y for x, y in zip(got_children, exp_children)),
+                "children", f"expected {len(exp_children)} got {len(got_children)}")
     got_cn = list(root.get_child_nodes())
     require(len(got_cn) == len(exp_children) and all(x is y for x, y in zip(got_cn, exp_children)),
             "get_child_nodes", f"expected {len(exp_children)} got {len(got_cn)}")
@@ -196,6 +197,13 @@ def check_tree(data: dict, lab: Labels) -> None:
                 f"classes={names} exact={exact} masks={pm},{fm}: expected {[p[0].uid for p in exp]} "
                 f"got {[uid_of_live.get(id(g), -1) for g in got]}")
         lab.count("gathers")
+    # gather by an abstract marker class the node classes are registered with (isinstance, not the MRO)
+    exp_m: list = []
+    ref_pre(root_e, lambda p: False, lambda p: any(M.is_subclass(p[0].cls, c) for c in M.MARKED), exp_m, [])
+    got_m = list(root.gather(M.load().Marker))
+    require(len(got_m) == len(exp_m) and all(g is b.of(p[0]) for g, p in zip(got_m, exp_m)), "gather",
+            f"registered marker class: {len(got_m)} nodes, expected {len(exp_m)}")
+    require(list(root.gather(M.load().Marker, exact_type=True)) == [], "gather", "exact type of an abstract marker")
     lab.nontrivial = depth >= 3 and nontrivial
     if data.get("copy"):
         # a deep copy (objects made without the constructor, same ids as their originals, both alive):
